@@ -343,7 +343,8 @@ func (nd *hnode) run(c *Case, g *gEvent) (accepted bool, err error) {
 	}
 	nd.inserted[g.name] = true
 	nd.order = append(nd.order, g)
-	c.Op(op, append([]string{"O acc"}, nd.newBlockLines()...)...)
+	// the counter behind core.busy(): loaded events inserted and not yet in a processed frame
+	c.Op(op, append([]string{"O acc", fmt.Sprintf("O pl %d", nd.h.PendingLoadedEvents)}, nd.newBlockLines()...)...)
 	return true, nil
 }
 
